@@ -432,7 +432,7 @@ func ruleARI2(p *Program) *RuleResult {
 			}
 		}
 	}
-	r.floor("raw_int32_ops", 4)
+	r.floor("raw_int32_ops", 2)
 	return r
 }
 
@@ -687,7 +687,7 @@ func ruleARI6(p *Program) *RuleResult {
 			}
 		}
 	}
-	r.floor("fallible_operations", 8)
+	r.floor("fallible_operations", 4)
 	return r
 }
 
